@@ -258,3 +258,193 @@ func Verif_KSCAN() {
 	vrt.Assert(serr != nil, "snapshot-removed-on-load")
 	vrt.Cover("kscan-end")
 }
+
+// kexpCtx is a context whose deadline expires after a chosen number of Err() checks.
+type kexpCtx struct {
+	context.Context
+	left int
+}
+
+func (c *kexpCtx) Err() error {
+	if c.left == 0 {
+		return context.DeadlineExceeded
+	}
+	c.left--
+	return nil
+}
+
+// mkRec builds one non-deleted record (size prefix + bucket prefix + symbolic list) for bucket b.
+func mkRec(b BucketIndex, label string) []byte {
+	rec := make([]byte, 8, 8+14)
+	binary.LittleEndian.PutUint32(rec, 4+14)
+	binary.LittleEndian.PutUint32(rec[4:], uint32(b))
+	return append(rec, vrt.Bytes(label, 14)...)
+}
+
+// Verif_KIGC2: index GC over several non-current files, with a cycle stopped by its time
+// limit at any of its checks, a supersession between the cycles, and the resumed cycle
+// (C04/C11 kernel). After every cycle the busy records are intact, the sequence of index
+// files named by the header has no hole, and a rescan from the header (restart without a
+// bucket snapshot) reconstructs exactly the live bucket table.
+func Verif_KIGC2() {
+	dir := vrt.TempDir()
+	base := filepath.Join(dir, "i")
+	F := vrt.Param("files", 3)
+	R := vrt.Param("records", 1)
+	nb := vrt.Param("nbuckets", 2)
+	maxFileSize := uint32(1 << 20)
+	symDeleted := vrt.Param("symdeleted", 0) != 0
+
+	var all []*iRec
+	for f := 0; f < F; f++ {
+		r := 1 + vrt.Choose("r", R)
+		var data []byte
+		for i := 0; i < r; i++ {
+			b := kBuckets[vrt.Choose("bucket", nb)]
+			raw := mkRec(b, "list")
+			rec := &iRec{bucket: b, start: len(data), body: raw[4:], file: uint32(f)}
+			if symDeleted {
+				rec.deleted = vrt.Bool("deleted")
+			}
+			if rec.deleted {
+				binary.LittleEndian.PutUint32(raw, (4+14)|deletedBit)
+			}
+			data = append(data, raw...)
+			all = append(all, rec)
+		}
+		vrt.Assert(os.WriteFile(indexFileName(base, uint32(f)), data, 0o644) == nil, "setup")
+	}
+	// bucket table: each bucket names its newest non-deleted record of the old files, or a
+	// newer record in the current file; a bucket without records may be empty.
+	newest := newestPerBucket(all)
+	var cur []byte
+	want := map[BucketIndex]types.Position{}
+	busy := map[BucketIndex]*iRec{}
+	for _, b := range kBuckets[:nb] {
+		rec := newest[b]
+		if vrt.Choose("bucket-in-current-file", 2) == 1 {
+			want[b] = localPosToBucketPos(int64(len(cur))+sizePrefixSize, uint32(F), maxFileSize)
+			cur = append(cur, mkRec(b, "cur-list")...)
+			continue
+		}
+		if rec != nil {
+			want[b] = localPosToBucketPos(int64(rec.start)+sizePrefixSize, rec.file, maxFileSize)
+			busy[b] = rec
+		}
+	}
+	vrt.Assert(os.WriteFile(indexFileName(base, uint32(F)), cur, 0o644) == nil, "setup")
+	vrt.Assert(writeHeader(headerName(base), newHeader(8, maxFileSize)) == nil, "setup")
+
+	prim := &symPrimary{}
+	idx, err := Open(context.Background(), base, prim, 8, maxFileSize, 0, 0, filecache.New(4))
+	vrt.Assert(err == nil, "open-no-error")
+	if err != nil {
+		return
+	}
+	vrt.Assert(idx.fileNum == uint32(F), "setup-current-file")
+	for _, b := range kBuckets[:nb] {
+		// the recovery scan of Open must already have produced this table
+		vrt.Assert(idx.buckets[b] == want[b], "open-scan-yields-newest-live-record", "bucket", uint32(b))
+		idx.buckets[b] = want[b]
+	}
+
+	check := func(where string) {
+		header, err := readHeader(headerName(base))
+		vrt.Assert(err == nil, "header-readable", "where", where)
+		if err != nil {
+			return
+		}
+		vrt.Assert(header.FirstFile <= uint32(F), "first-file-not-past-current", "where", where)
+		for f := header.FirstFile; f <= uint32(F); f++ {
+			_, serr := os.Stat(indexFileName(base, f))
+			vrt.Assert(serr == nil, "no-hole-in-index-file-sequence", "where", where, "file", int(f), "first", int(header.FirstFile))
+		}
+		for _, b := range kBuckets[:nb] {
+			rec := busy[b]
+			if rec == nil {
+				continue
+			}
+			rl, err := idx.readDiskBucket(types.Position(rec.start+sizePrefixSize), rec.file)
+			vrt.Assert(err == nil, "busy-record-readable", "where", where, "file", int(rec.file))
+			if err == nil {
+				vrt.Assert(bytes.Equal([]byte(rl), rec.body[4:]), "busy-record-intact", "where", where, "file", int(rec.file))
+			}
+		}
+		fresh, _ := NewBuckets(8)
+		last, err := scanIndex(context.Background(), base, header.FirstFile, fresh, maxFileSize)
+		vrt.Assert(err == nil, "rescan-no-error", "where", where)
+		if err != nil {
+			return
+		}
+		vrt.Assert(last == uint32(F), "rescan-finds-current-file", "where", where, "last", int(last))
+		for _, b := range kBuckets[:nb] {
+			vrt.Assert(fresh[b] == idx.buckets[b], "rescan-from-header-reconstructs-bucket-table", "where", where, "bucket", uint32(b))
+		}
+	}
+
+	// cycle 1: may be stopped by its time limit at any check
+	K := vrt.Param("ctxchecks", 8)
+	var ctx context.Context = context.Background()
+	if n := vrt.Choose("expire-after", K+1); n < K {
+		ctx = &kexpCtx{Context: context.Background(), left: n}
+	}
+	_, _, err = idx.gc(ctx, vrt.Choose("scanfree", 2) == 1)
+	vrt.Assert(err == nil || err == context.DeadlineExceeded, "gc-no-error", "where", "cycle-1")
+	if err != nil {
+		vrt.Cover("kigc2-cycle-stopped")
+		if idx.gcResume && idx.gcResumeAt > 0 {
+			vrt.Cover("kigc2-resume-past-first-file")
+		}
+	}
+	check("after-cycle-1")
+
+	// between the cycles a flush may supersede one busy record (new record in the current file)
+	if s := vrt.Choose("supersede", nb+1); s > 0 {
+		b := kBuckets[s-1]
+		if busy[b] != nil {
+			fi, err := os.Stat(indexFileName(base, uint32(F)))
+			vrt.Assert(err == nil, "stat-current")
+			f, err := os.OpenFile(indexFileName(base, uint32(F)), os.O_WRONLY|os.O_APPEND, 0o644)
+			vrt.Assert(err == nil, "append-open")
+			_, err = f.Write(mkRec(b, "new-list"))
+			vrt.Assert(err == nil, "append-write")
+			f.Close()
+			idx.buckets[b] = localPosToBucketPos(fi.Size()+sizePrefixSize, uint32(F), maxFileSize)
+			delete(busy, b)
+			vrt.Cover("kigc2-superseded-between-cycles")
+		}
+	}
+
+	// cycle 2 runs to completion (resuming where cycle 1 stopped)
+	_, _, err = idx.gc(context.Background(), vrt.Choose("scanfree", 2) == 1)
+	check("after-cycle-2")
+	if err != nil {
+		// Observed on the pinned tree (not a violation of C04/C11 as stated): when the
+		// scan-free pass of the resumed cycle unlinks the file the cycle was to resume at,
+		// the cycle ends with "cannot stat index file" and the resume cursor is dropped.
+		// Contents are untouched (checked above) and the next cycle must complete.
+		vrt.Cover("kigc2-resumed-cycle-failed")
+		vrt.Assert(!idx.gcResume, "failed-cycle-drops-resume-cursor")
+		_, _, err = idx.gc(context.Background(), vrt.Choose("scanfree", 2) == 1)
+		vrt.Assert(err == nil, "gc-no-error", "where", "cycle-3")
+		check("after-cycle-3")
+	}
+	// every old file that holds no busy record is empty or gone after the complete cycle
+	header, err := readHeader(headerName(base))
+	if err == nil {
+		for f := uint32(0); f < uint32(F); f++ {
+			used := false
+			for _, rec := range busy {
+				if rec.file == f {
+					used = true
+				}
+			}
+			if used {
+				continue
+			}
+			fi, serr := os.Stat(indexFileName(base, f))
+			vrt.Assert(serr != nil || fi.Size() == 0, "unreferenced-file-emptied-or-removed", "file", int(f), "first", int(header.FirstFile))
+		}
+	}
+	vrt.Cover("kigc2-end")
+}
